@@ -292,12 +292,13 @@ func (x *exec) doActions(point byte) {
 		x.holdNext.Store(true)
 		go func() {
 			defer close(fin)
+			defer x.recoverTo("resolveNow")
 			x.res.ResolveNow() // blocks in the hook until released
 		}()
 		<-x.loaded
 	}
 	for i := 0; i < pl.n[point-'A']; i++ {
-		x.res.ResolveNow()
+		x.safeResolveNow()
 	}
 	for _, h := range pl.relAt {
 		if h != point {
@@ -319,6 +320,7 @@ func (x *exec) spawnClose() {
 		return
 	}
 	go func() {
+		defer x.recoverTo("close")
 		x.res.Close()
 		x.mu.Lock()
 		x.closed.Store(true)
@@ -326,6 +328,20 @@ func (x *exec) spawnClose() {
 		x.mu.Unlock()
 		x.poke()
 	}()
+}
+
+// recoverTo turns a panic of a helper goroutine (the code under test panicking inside ResolveNow/Close)
+// into a log token instead of killing the harness process.
+func (x *exec) recoverTo(what string) {
+	if r := recover(); r != nil {
+		x.logf("!panic-in-%s", what)
+		x.poke()
+	}
+}
+
+func (x *exec) safeResolveNow() {
+	defer x.recoverTo("resolveNow")
+	x.res.ResolveNow()
 }
 
 func (x *exec) poke() {
